@@ -114,3 +114,54 @@ package proxy
 //@   ensures[forward-via-http] gDialed ==> gDialedUpstream != nil && !gDialedUpstream.Forward() && gDialedUpstream.EndpointID() == endpointID && !gServed
 //@   ensures[served-selected] gServed ==> gServedUpstream != nil && gServedUpstream.Forward() && gServedUpstream.EndpointID() == endpointID && gSelAllow && !gDialed
 //@   ensures[502-none] !gServed && !gDialed ==> gWrote && gStatus == 502
+
+// ---- routes (C01, C08, C10) -----------------------------------------------------
+
+//@ ghost gDerived string
+//@ ghost gTok any
+//@ ghost gTokOk bool
+//@ uninterp ginParam(c *gin.Context, key string) string
+
+//@ extern github.com/gin-gonic/gin.(*Context).Get
+//@   modifies-all $gTok $gTokOk
+//@   ghost-set gTok = result0
+//@   ghost-set gTokOk = result1
+//@   ensures[env-token-type] result1 ==> typeIs(result0, "*auth.Token") && unbox(result0, "*auth.Token") != nil
+//@ extern github.com/gin-gonic/gin.(*Context).Param
+//@   ensures[param] result == ginParam(c, key)
+//@ extern github.com/gin-gonic/gin.(*Context).JSON
+//@   modifies-all $gStatus $gWrote
+//@   ghost-set gStatus = code
+//@   ghost-set gWrote = true
+//@ extern strings.Split
+//@   ensures[nonempty] sep != "" ==> len(result) >= 1
+//@ extern strings.Contains
+//@ extern net.SplitHostPort
+//@ extern net.ParseIP
+
+//@ nonnil Server.httpProxy Server.tcpProxy
+//@ immutable Server.httpProxy Server.tcpProxy
+
+//@ contract EndpointIDFromRequest
+//@   serves C01 C10 C08
+//@   requires[request] r != nil && r.Header != nil
+//@   ghost-set gDerived = result
+//@   ensures[header-first] hdrEndpoint[r.Header] != "" ==> result == hdrEndpoint[r.Header]
+//@   ensures[read-only] hdrEndpoint == old(hdrEndpoint) && hdrFwd == old(hdrFwd) && hdrUpgrade == old(hdrUpgrade)
+
+//@ contract (*Server).proxyHTTPRoute
+//@   serves C01 C08 C10
+//@   requires[context] c != nil && c.Request != nil && c.Request.Header != nil && c.Writer != nil
+//@   requires[fresh-step] !gSelected && !gServed && !gProxied && !gWrote
+//@   ensures[400] gDerived == "" ==> gWrote && gStatus == 400 && !gSelected
+//@   ensures[checked-is-routed] gSelected ==> gSelEndpoint == gDerived && gDerived != ""
+//@   ensures[permitted] gSelected && gTokOk ==> permitted(unbox(gTok, "*auth.Token"), gSelEndpoint)
+//@   ensures[401] gTokOk && gDerived != "" && !permitted(unbox(gTok, "*auth.Token"), gDerived) ==> gWrote && gStatus == 401 && !gSelected
+
+//@ contract (*Server).proxyTCPRoute
+//@   serves C01 C10
+//@   requires[context] c != nil && c.Request != nil && c.Request.Header != nil && c.Writer != nil
+//@   requires[fresh-step] !gSelected && !gServed && !gProxied && !gWrote && !gDialed
+//@   ensures[checked-is-routed] gSelected ==> gSelEndpoint == ginParam(c, "endpointID")
+//@   ensures[permitted] gSelected && gTokOk ==> permitted(unbox(gTok, "*auth.Token"), gSelEndpoint)
+//@   ensures[401] gTokOk && !permitted(unbox(gTok, "*auth.Token"), ginParam(c, "endpointID")) ==> gWrote && gStatus == 401 && !gSelected
